@@ -14,7 +14,7 @@ from .core import Report, VERIF, REPO
 def load_contracts():
     d = os.path.join(VERIF, "contracts")
     for f in sorted(os.listdir(d)):
-        if f.endswith(".py") and not f.startswith("_") and f != "__init__.py":
+        if f.endswith(".py") and f != "__init__.py":
             importlib.import_module("contracts." + f[:-3])
 
 
